@@ -36,7 +36,8 @@ BEHS = ["falsy", "truthy", "raise", "raise_if_exc"]
 BEHS_EXTRA = BEHS + ["raise_base", "raise_base_if_exc", "reraise_same", "reraise_same",
                      # standard exception types a library may be tempted to catch for its own purposes
                      "raise_std:StopAsyncIteration", "raise_std:RuntimeError", "raise_std:KeyError", "raise_std:AttributeError",
-                     "raise_std:TypeError", "raise_std:GeneratorExit", "raise_std:Exception", "raise_std:BaseException", "raise_chained", "raise_chained", "raise_while_reraising", "raise_while_reraising"]
+                     "raise_std:TypeError", "raise_std:GeneratorExit", "raise_std:Exception", "raise_std:BaseException", "raise_chained", "raise_chained", "raise_while_reraising", "raise_while_reraising",
+                     "raise_block_exception_again", "raise_block_exception_again"]
 STD = {"StopAsyncIteration": StopAsyncIteration, "RuntimeError": RuntimeError, "KeyError": KeyError,
        "AttributeError": AttributeError, "TypeError": TypeError, "GeneratorExit": GeneratorExit,
        "Exception": Exception, "BaseException": BaseException}
@@ -110,7 +111,7 @@ def cases(tier, seed, shard, nshards):
 # stacks vs nested statements
 # ---------------------------------------------------------------------------
 
-def mk_entry(kind, beh, i, log, susp, choice):
+def mk_entry(kind, beh, i, log, susp, choice, shared=None):
     def exit_logic(et, ev, tb):
         log.append(("exit", i, None if ev is None else getattr(ev, "n", type(ev).__name__),
                     None if et is None else et.__name__))
@@ -131,6 +132,12 @@ def mk_entry(kind, beh, i, log, susp, choice):
             return None
         if beh.startswith("raise_std:"):
             raise STD[beh.split(":")[1]](f"s{i}")
+        if beh == "raise_block_exception_again":
+            # a kept reference to the block's exception is raised (again) whatever this handler received - also
+            # after a later-registered handler had suppressed it
+            if shared and shared.get("body") is not None:
+                raise shared["body"]
+            return None
         if beh == "raise_while_reraising":
             # the handler re-raises what it received and fails while handling THAT: the new exception's context is
             # the received exception by the interpreter's own doing
@@ -226,8 +233,8 @@ def run_stack(case, stats):
     # --- reference: the language's own nested statements -----------------------------
     CTX.reset()
     l1 = []
-    ents = [mk_entry(k, b, i, l1, susp, i) for i, (k, b) in enumerate(spec)]
     body_exc1 = E("body")
+    ents = [mk_entry(k, b, i, l1, susp, i, {"body": body_exc1 if body else None}) for i, (k, b) in enumerate(spec)]
 
     async def nest(i):
         if i == n:
@@ -310,8 +317,8 @@ def run_stack(case, stats):
     # --- ExitStack ----------------------------------------------------------------------
     CTX.reset()
     l2 = []
-    ents2 = [mk_entry(k, b, i, l2, susp, i) for i, (k, b) in enumerate(spec)]
     body_exc2 = E("body")
+    ents2 = [mk_entry(k, b, i, l2, susp, i, {"body": body_exc2 if body else None}) for i, (k, b) in enumerate(spec)]
     misc = []
 
     async def st():
